@@ -11,7 +11,7 @@ import os
 
 from verifkit import Infra, read_ndjson, write_ndjson
 
-STARTS = {"AStart", "LStart", "BStart", "SStart", "Conn", "SyncEnd", "QEnd", "Note", "GReset"}
+STARTS = {"AStart", "LStart", "BStart", "SStart", "Conn", "SyncEnd", "QEnd", "Note", "GReset", "FReset"}
 MAX_REJECTIONS = 8
 
 
@@ -204,8 +204,54 @@ def judge_gossip(case, off=None):
     return True, "messages, chain and pool right; marks / decision bookkeeping differ from Gossip.tla"
 
 
+def judge_future(case, off=None):
+    """Pushed blocks the node cannot import yet. Observables: what is stored, what a push / a retry round did with a block
+    given its timestamp and the clock window of the decision."""
+    uni = {r["id"]: r for r in case[0]["universe"]}
+    for e in case:
+        if e["e"] == "Universe":
+            uni[e["add"]["id"]] = e["add"]
+    T = case[0]["T"]
+    stored = set(case[0]["stored"])
+    release = None
+    for i, e in enumerate(case):
+        if e["e"] == "Release":
+            release = e["lo"]
+        if e["e"] == "Push":
+            b = uni[e["id"]]
+            if e["out"] == "imported":
+                if not (b["valid"] and b["bft"]):
+                    return False, "block %s (%s) was imported although it is %s" % (e["id"], e.get("note"), "invalid" if not b["valid"] else "refused by finality")
+                if b["ts"] > e["hi"] + T:
+                    return False, "block %s (%s) was imported %d s ahead of the clock (timestamp %d, clock <= %d, interval %d)" % (
+                        e["id"], e.get("note"), b["ts"] - e["hi"], b["ts"], e["hi"], T)
+                stored.add(e["id"])
+            ready = b["valid"] and b["bft"] and b["parent"] in stored and e["id"] not in stored
+            if e["out"] in ("cached", "dropped") and ready and b["ts"] <= e["lo"] + T:
+                return False, ("block %s (%s) is importable (timestamp %d <= clock %d + interval %d, parent stored) but was %s"
+                               % (e["id"], e.get("note"), b["ts"], e["lo"], T, e["out"]))
+            if e["out"] == "dropped" and ready and b["ts"] > e["hi"] + T:
+                return False, "block %s (%s) is ahead of the clock and was dropped instead of cached" % (e["id"], e.get("note"))
+        if e["e"] == "Round":
+            now_stored = set(e["stored"])
+            for x in now_stored:
+                if not (uni[x]["valid"] and uni[x]["bft"]):
+                    return False, "block %s is stored although it is invalid / refused by finality" % x
+            if release is not None:
+                # every retry round since the release began at a clock >= release: what was importable then must be in
+                left = [x for x in e["cache"] if uni[x]["valid"] and uni[x]["bft"] and uni[x]["ts"] <= release + T
+                        and uni[x]["parent"] in now_stored]
+                if left and any(x not in stored for x in now_stored):
+                    return False, ("a retry round imported part of a cached chain and left %s in the cache although it was importable "
+                                   "(timestamp <= clock %d + interval, parent stored): the round does not visit parents before children" % (left, release))
+            stored = now_stored
+    return True, "stored blocks and decisions consistent with timestamps; bookkeeping differs from FutureBlocks.tla"
+
+
 def judge(case, off=None):
     k = case[0]["e"]
+    if k == "FReset":
+        return judge_future(case, off)
     if k == "GReset":
         return judge_gossip(case, off)
     if k == "AStart":
@@ -225,6 +271,8 @@ def judge(case, off=None):
 
 def case_label(case):
     h = case[0]
+    if h["e"] == "FReset":
+        return "future-blocks run"
     if h["e"] == "GReset":
         return "gossip run " + str(h.get("case"))
     if h["e"] == "AStart":
@@ -239,6 +287,11 @@ def case_label(case):
 
 def signature(case, why):
     h = case[0]
+    if h["e"] == "FReset":
+        kind = ("one-round" if "retry round" in why else "admissible-not-imported" if "is importable" in why
+                else "imported-ahead-of-clock" if "ahead of the clock" in why and "imported" in why
+                else "future-block-dropped" if "dropped instead" in why else "unsound-store")
+        return "futureblocks:" + kind
     if h["e"] == "QEnd":
         return "bft:" + str(h.get("case"))
     if h["e"] == "GReset":
